@@ -1,135 +1,138 @@
 import RdsModel.Generated
+import RdsModel.Text
 import RdsSpec.Reference
 import RdsSpec.TableCheck
 import RdsSpec.Statements
 /-!
-# RdsProofs.TableProofs — kernel-checked theorems about the extracted tables
+# RdsProofs.TableProofs — kernel-checked theorems about the extracted tables (C02, C11, C18, C20)
 
 `Generated.*` is read out of the compiled library on every run; `Reference.*` is the hand-written
-oracle. Every theorem here is a closed, finite statement proved by `decide +kernel` on a `Bool`
-check over the *whole* domain (`RdsSpec/TableCheck.lean`), lifted to `∀` by `all_range`.
+oracle. Every theorem here rests on closed, finite `Bool` facts evaluated by the kernel
+(`decide +kernel`) over the *whole* table, then lifted to `∀` by the `tbl_…` lemmas.
 
-Theorems that are false for the library at its pinned commit are in
-`RdsProofs/TableProofsPending.lean`; here they are replaced by `…_deviations` theorems that prove
-the exact list of deviating cells, and by `…_except` corollaries for all other cells.
+The kernel evaluates each table in one pass (`l == expected`, `zipIdx.all`): indexing a 256-entry
+list for every cell is quadratic and `String` operations cost ≈ 1 ms each in the kernel.
+
+Theorems that are false for the library at its pinned commit (`C02_charset`, `C18_country_iso`,
+`C18_iso_distinct`) are in `RdsProofs/TableProofsPending.lean`. Here they are represented by
+`…_deviations` (the exact list of deviating arguments), `…_pinned_defects` (the wrong cells and the
+correct values) and `…_except` (the statement for all other arguments).
 -/
-namespace RDS.TableProofs
-open RDS RDS.TableCheck
+
+-- the kernel evaluations are memory-bound; checking them concurrently is slower than in sequence
+set_option Elab.async false
+
+namespace RDS
+open RDS.TableCheck
 
 /-! ## lifting lemmas -/
 
-theorem all_range {p : Nat → Bool} {n : Nat} (h : (List.range n).all p = true) :
-    ∀ a, a < n → p a = true :=
-  fun a ha => List.all_eq_true.mp h a (List.mem_range.mpr ha)
-
-theorem all_range₂ {p : Nat → Nat → Bool} {m n : Nat}
-    (h : (List.range m).all (fun i => (List.range n).all (p i)) = true) :
-    ∀ i, i < m → ∀ j, j < n → p i j = true :=
-  fun i hi j hj => all_range (all_range h i hi) j hj
-
-/-- a proved deviation list gives the check at every other argument -/
-theorem ok_of_not_dev {ok : Nat → Bool} {L : List Nat} (h : deviations256 ok = L) :
-    ∀ a, a < 256 → a ∉ L → ok a = true := by
-  intro a ha hn
+theorem tbl_getD_of_eq_map_range {α : Type} {l : List α} {n : Nat} {f : Nat → α}
+    (h : l = (List.range n).map f) (a : Nat) (ha : a < n) (d : α) : l.getD a d = f a := by
   subst h
-  cases hok : ok a with
-  | true => rfl
-  | false =>
-    exact absurd (List.mem_filter.mpr ⟨List.mem_range.mpr ha, by simp [hok]⟩) hn
+  simp [List.getD_eq_getElem?_getD, ha]
 
-theorem getD_mem_or_default {α : Type} (l : List α) (i : Nat) (d : α) :
+theorem tbl_getD_set_ne {α : Type} (l : List α) {i a : Nat} (v d : α) (h : i ≠ a) :
+    (l.set i v).getD a d = l.getD a d := by
+  simp [List.getD_eq_getElem?_getD, List.getElem?_set_ne h]
+
+theorem tbl_getD_mem_or_default {α : Type} (l : List α) (i : Nat) (d : α) :
     l.getD i d ∈ l ∨ l.getD i d = d := by
   rw [List.getD_eq_getElem?_getD]
   cases h : l[i]? with
   | none => exact Or.inr rfl
   | some x => exact Or.inl (List.mem_of_getElem? h)
 
+/-- a `Bool` predicate checked on every (index, value) of a list holds at every index -/
+theorem tbl_zipIdx_all {α : Type} {l : List α} {p : Nat → α → Bool}
+    (h : l.zipIdx.all (fun xi => p xi.2 xi.1) = true) (i : Nat) (d : α) (hi : i < l.length) :
+    p i (l.getD i d) = true := by
+  have hx : l[i]? = some (l.getD i d) := by
+    simp [List.getD_eq_getElem?_getD, List.getElem?_eq_getElem hi]
+  exact List.all_eq_true.mp h (l.getD i d, i) (List.mem_zipIdx_iff_getElem?.mpr hx)
+
 /-! ## the reference tables are well-formed (guards against a malformed oracle) -/
 
-theorem reference_shape :
-    Reference.g0.length = 224 ∧ Reference.countries.length = 220 ∧
-    Reference.countryNames.length = Reference.countryCount ∧
+theorem tbl_reference_shape :
+    Reference.g0.length = 224 ∧
+    Reference.countries.map (fun r => r.1.enumerator) = List.range Reference.countryCount ∧
     Reference.eccCodes =
       [0xA0, 0xA1, 0xA2, 0xA3, 0xA4, 0xA5, 0xA6, 0xD0, 0xD1, 0xD2, 0xD3, 0xD4,
        0xE0, 0xE1, 0xE2, 0xE3, 0xE4, 0xE5, 0xF0, 0xF1, 0xF2, 0xF3, 0xF4] ∧
     Reference.iecColumns.all (fun c => c.2.length == 15) = true ∧
+    Reference.iecTable.map List.length = List.replicate 17 256 ∧
     (∀ t r, (Reference.pty t r).length = 32) := by
   refine ⟨by decide +kernel, by decide +kernel, by decide +kernel, by decide +kernel,
     by decide +kernel, ?_⟩
   intro t r; cases t <;> cases r <;> decide +kernel
 
-/-- every name used in the IEC table is a name of the enumeration (no typo can hide as "unknown"
-or out of range), and the names of the enumeration are pairwise distinct -/
-theorem reference_names :
-    Reference.iecColumns.all (fun c => c.2.all (fun n => n == "" || Reference.countryNames.contains n)) = true ∧
-    Reference.countryNames.Nodup := by
-  refine ⟨by decide +kernel, by decide +kernel⟩
+theorem tbl_countries_length : Reference.countries.length = 221 := by decide +kernel
+
+theorem tbl_generated_lengths :
+    Generated.g0.length = 256 ∧ Generated.narrow.length = 256 ∧
+    Generated.countryName.length = 256 ∧ Generated.countryIso.length = 256 ∧
+    Generated.eccCountry.map List.length = List.replicate 17 256 := by
+  refine ⟨by decide +kernel, by decide +kernel, by decide +kernel, by decide +kernel,
+    by decide +kernel⟩
 
 /-! ## C02 — character set of the default build -/
 
-/-- the only byte of the pinned library that deviates from IEC 62106 table E.1 -/
-theorem C02_charset_deviations : deviations256 g0OkAt = [0x8D] := by decide +kernel
+/-- the only byte at which the pinned library deviates from IEC 62106 table E.1 -/
+theorem C02_charset_deviations : diffIdx Generated.g0 g0Expected 0 = [0x8D] :=
+  eq_of_beq (by decide +kernel)
 
-/-- the deviating cell: the library stores Greek small beta U+03B2, table E.1 has the German
-sharp s U+00DF -/
+/-- the deviating cell: the library stores Greek small beta U+03B2 where table E.1 has the German
+sharp s U+00DF; with that one cell replaced, the table is the reference table -/
 theorem C02_charset_pinned_defects :
-    Generated.g0.getD 0x8D 0 = 0x3B2 ∧ Reference.g0.getD (0x8D - 0x20) 0 = 0xDF := by decide +kernel
+    Generated.g0.getD 0x8D 0 = 0x3B2 ∧ Reference.g0.getD (0x8D - 0x20) 0 = 0xDF ∧
+    Generated.g0.set 0x8D 0xDF = g0Expected := by
+  refine ⟨by decide +kernel, by decide +kernel, eq_of_beq (by decide +kernel)⟩
 
 /-- `C02_charset` for every byte except 0x8D -/
 theorem C02_charset_except : ∀ b, 0x20 ≤ b → b < 256 → b ≠ 0x8D →
     Generated.g0.getD b 0 = Reference.g0.getD (b - 0x20) 0 := by
   intro b h20 hb hne
-  have h := ok_of_not_dev C02_charset_deviations b hb (by simpa using hne)
+  rw [← tbl_getD_set_ne Generated.g0 0xDF 0 (Ne.symm hne),
+    tbl_getD_of_eq_map_range C02_charset_pinned_defects.2.2 b hb 0]
   have h0D : (b == 0x0D) = false := by simp; omega
   have hlt : ¬ b < 0x20 := by omega
-  simp [g0OkAt, Reference.g0Value, h0D, hlt] at h
-  exact h.2
+  simp [Reference.g0Value, h0D, hlt]
 
 theorem C02_stored :
-    Generated.g0Stored = (List.range 256).map (fun b => b == 0x0D || decide (0x20 ≤ b)) := by
-  decide +kernel
+    Generated.g0Stored = (List.range 256).map (fun b => b == 0x0D || decide (0x20 ≤ b)) :=
+  eq_of_beq (by decide +kernel)
 
 theorem C02_eol : Generated.g0.getD 0x0D 1 = 0 := by decide +kernel
 
 /-- a stored printable never collides with the end-of-text marker -/
 theorem C02_no_nul : ∀ b, b ≥ 0x20 → b < 256 → b ≠ 0x0D → Generated.g0.getD b 0 ≠ 0 := by
   intro b h20 hb _
-  have h := all_range (p := fun b => !(decide (0x20 ≤ b)) || Generated.g0.getD b 0 != 0)
-    (by decide +kernel) b hb
-  simpa [h20] using h
+  have h := tbl_zipIdx_all (l := Generated.g0) (p := fun i x => decide (i < 0x20) || x != 0)
+    (by decide +kernel) b 0 (by rw [tbl_generated_lengths.1]; exact hb)
+  have hlt : ¬ b < 0x20 := by omega
+  simpa [hlt] using h
 
 theorem C02_lane_independent :
     Generated.laneDependent = 0 ∧ Generated.laneDependentNarrow = 0 := by decide +kernel
 
-/-- control codes other than 0x0D are not stored, in either build -/
-theorem C02_controls_not_stored : ∀ b, b < 0x20 → b ≠ 0x0D →
-    Generated.g0Stored.getD b true = false ∧ Generated.narrowStored.getD b true = false := by
-  intro b hb hne
-  have h := all_range (p := fun b => b == 0x0D ||
-      (!Generated.g0Stored.getD b true && !Generated.narrowStored.getD b true))
-    (n := 0x20) (by decide +kernel) b hb
-  simpa [hne] using h
-
 /-! ## C20 — the `RDSPARSER_DISABLE_UNICODE` build -/
+
+theorem C20_narrow_stored : Generated.narrowStored = storedExpected := eq_of_beq (by decide +kernel)
+theorem C20_narrow_values : Generated.narrow = narrowExpected := eq_of_beq (by decide +kernel)
 
 theorem C20_narrow_table : ∀ b, b < 256 →
     Generated.narrowStored.getD b false = (b == 0x0D || decide (0x20 ≤ b)) ∧
     Generated.narrow.getD b 0 =
       (if b = 0x0D then 0 else if b < 0x20 then 32 else if b < 0x7F then b else 0x20) := by
   intro b hb
-  have h := all_range (p := narrowOkAt) (by decide +kernel) b hb
-  simp only [narrowOkAt, Reference.stored, Reference.narrowValue, Reference.notStored,
-    Bool.and_eq_true, beq_iff_eq] at h
-  refine ⟨h.1, ?_⟩
-  rw [h.2]
+  rw [tbl_getD_of_eq_map_range C20_narrow_stored b hb, tbl_getD_of_eq_map_range C20_narrow_values b hb]
+  simp [Reference.stored, Reference.narrowValue, Reference.notStored]
 
-/-- the narrow rule coincides with the model's `conv` on every stored byte -/
-theorem C20_narrow_is_conv : ∀ b, b < 256 → Reference.stored b = true →
+/-- the narrow rule is the model's `conv` on every stored byte -/
+theorem C20_narrow_is_conv : ∀ b, b < 256 → (b = 0x0D ∨ 0x20 ≤ b) →
     Generated.narrow.getD b 0 = RDS.conv (Generated.cfg false) b := by
   intro b hb hs
-  have h := (C20_narrow_table b hb).2
-  rw [h]
-  simp [Reference.stored] at hs
+  rw [(C20_narrow_table b hb).2]
   simp only [RDS.conv, Generated.cfg]
   by_cases h0 : b = 0x0D
   · simp [h0]
@@ -144,6 +147,21 @@ theorem C20_consts :
     Generated.constsAgree = true ∧ Generated.eccCountryNarrowAgrees = true ∧
     Generated.lookupsNarrowAgree = true := by decide +kernel
 
+/-- G0 on the ISO 646 range: the identity except for the four code positions that IEC 62106
+assigns differently (¤ for $, ― for ^, ‖ for `, ¯ for ~) -/
+def tbl_asciiVal (b : Nat) : Nat :=
+  if b = 0x24 then 0xA4 else if b = 0x5E then 0x2015 else if b = 0x60 then 0x2016
+  else if b = 0x7E then 0xAF else b
+
+theorem C20_g0_ascii : ∀ b, 0x20 ≤ b → b ≤ 0x7E → Generated.g0.getD b 0 = tbl_asciiVal b := by
+  intro b h20 h7e
+  have h := tbl_zipIdx_all (l := Generated.g0)
+    (p := fun i x => decide (i < 0x20) || decide (0x7E < i) || x == tbl_asciiVal i)
+    (by decide +kernel) b 0 (by rw [tbl_generated_lengths.1]; omega)
+  have h1 : ¬ b < 0x20 := by omega
+  have h2 : ¬ 0x7E < b := by omega
+  simpa [h1, h2] using h
+
 /-- on 0x20..0x7E the default build's table is injective, fixes the space and never yields 0 -/
 theorem C20_g0_injective_ascii :
     (∀ a b, 0x20 ≤ a → a ≤ 0x7E → 0x20 ≤ b → b ≤ 0x7E →
@@ -152,11 +170,10 @@ theorem C20_g0_injective_ascii :
     (∀ a, 0x20 ≤ a → a ≤ 0x7E → Generated.g0.getD a 0 ≠ 0) := by
   refine ⟨?_, by decide +kernel, ?_⟩
   · intro a b ha ha' hb hb' heq
-    have h := all_range₂ (m := 0x7F) (n := 0x7F)
-      (p := fun a b => !(decide (0x20 ≤ a) && decide (0x20 ≤ b) &&
-        Generated.g0.getD a 0 == Generated.g0.getD b 0) || a == b)
-      (by decide +kernel) a (by omega) b (by omega)
-    simpa [ha, hb, heq] using h
+    rw [C20_g0_ascii a ha ha', C20_g0_ascii b hb hb'] at heq
+    unfold tbl_asciiVal at heq
+    repeat' split at heq
+    all_goals omega
   · intro a ha ha'
     exact C02_no_nul a ha (by omega) (by omega)
 
@@ -176,7 +193,7 @@ theorem consts_match :
     RDS.Scalars.cleared.pi = Generated.piUnknown ∧ RDS.Scalars.cleared.pty = Generated.ptyUnknown ∧
     RDS.Scalars.cleared.tp = Generated.tpUnknown ∧ RDS.Scalars.cleared.ta = Generated.taUnknown ∧
     RDS.Scalars.cleared.ms = Generated.msUnknown ∧ RDS.Scalars.cleared.ecc = Generated.eccUnknown ∧
-    (RDS.Scalars.cleared.country : Int) = (Generated.countryUnknown : Int) ∧
+    RDS.Scalars.cleared.country = (Generated.countryUnknown : Int) ∧
     Generated.textPs = 0 ∧ Generated.textRt = 1 ∧ Generated.textPtyn = 2 ∧
     Generated.typeInfo = 0 ∧ Generated.typeData = 1 ∧
     Generated.rtFlagA = 0 ∧ Generated.rtFlagB = 1 ∧
@@ -184,179 +201,229 @@ theorem consts_match :
 
 /-! ## C11 — ECC and country -/
 
-theorem C11_table : Generated.eccCountry = Reference.iecTable := by decide +kernel
+/-- all 17 × 256 cells: the library's lookup is the IEC 62106-4 table -/
+theorem C11_table : Generated.eccCountry = Reference.iecTable := eq_of_beq (by decide +kernel)
 
-theorem C11_cells : ∀ row, row < 17 → ∀ e, e < 256 →
-    (Generated.eccCountry.getD row []).getD e 0 = (if row = 0 then 0 else Reference.iec (row - 1) e) := by
-  intro row hr e he
-  have h := all_range₂ (p := eccOkAt) (by decide +kernel) row hr e he
-  simpa [eccOkAt, eccCell, eccRef] using h
+theorem C11_cells : ∀ nib e,
+    (Generated.eccCountry.getD (nib + 1) []).getD e 0 = Reference.iec nib e := by
+  intro nib e; rw [C11_table]; rfl
 
-theorem C11_range : ∀ row, row < 17 → ∀ e, e < 256 →
+theorem tbl_eccRangeOk : eccRangeOk Generated.eccCountry = true := by decide +kernel
+
+/-- every cell is a valid enumerator (also for out-of-range row/column arguments, where `getD`
+yields 0) -/
+theorem C11_range : ∀ row e,
     (Generated.eccCountry.getD row []).getD e 0 < Generated.countryCount := by
-  intro row hr e he
-  have h := all_range₂ (p := eccRangeOkAt) (by decide +kernel) row hr e he
-  simpa [eccRangeOkAt, eccCell] using h
-
-/-- PI unknown (row 0), nibble 0 (row 1) and every ECC byte other than the 23 allocated ones give
-"unknown" -/
-theorem C11_unknown : ∀ row, row < 17 → ∀ e, e < 256 →
-    (row ≤ 1 ∨ e ∉ Reference.eccCodes) → (Generated.eccCountry.getD row []).getD e 0 = 0 := by
-  intro row hr e he hc
-  have h := all_range₂ (p := eccUnknownOkAt) (by decide +kernel) row hr e he
-  simp only [eccUnknownOkAt, eccCell, Bool.or_eq_true, Bool.not_eq_true', beq_iff_eq,
-    Bool.or_eq_false_iff, decide_eq_true_eq, decide_eq_false_iff_not, Bool.not_eq_false'] at h
-  rcases h with h | h
-  · rcases hc with hc | hc
-    · exact absurd hc h.1
-    · exact absurd (List.contains_iff_mem.mp h.2) hc
-  · exact h
-
-/-- the range contract assumed by the logic proofs, for both builds -/
-theorem eccOk (u : Bool) : RDS.EccOk ⟨Generated.cfg u, Generated.countryCount⟩ := by
-  have hall : Generated.eccCountry.all (fun r => r.all (fun x => x < Generated.countryCount)) = true := by
-    decide +kernel
-  refine ⟨by decide +kernel, ?_⟩
-  intro n e
-  show (Generated.eccCountry.getD (n + 1) []).getD e 0 < Generated.countryCount
+  intro row e
   have hpos : 0 < Generated.countryCount := by decide +kernel
-  rcases getD_mem_or_default Generated.eccCountry (n + 1) [] with hrow | hrow
-  · have hr := List.all_eq_true.mp hall _ hrow
-    rcases getD_mem_or_default (Generated.eccCountry.getD (n + 1) []) e 0 with hx | hx
+  rcases tbl_getD_mem_or_default Generated.eccCountry row [] with hrow | hrow
+  · have hr := List.all_eq_true.mp tbl_eccRangeOk _ hrow
+    rcases tbl_getD_mem_or_default (Generated.eccCountry.getD row []) e 0 with hx | hx
     · simpa using List.all_eq_true.mp hr _ hx
     · rw [hx]; exact hpos
   · rw [hrow]; exact hpos
 
-/-- cells in which the older editions (EN 50067:1998, IEC 62106:2009/2015 Annex D) differ from the
-IEC 62106-4:2018 layout of `Reference.iecColumns`; the library follows the 2018 layout:
-E3/4 unallocated (older: Macedonia), E4/3 Macedonia (older: Kyrgyzstan), E5/3 Kyrgyzstan (older:
-E5 not in use). -/
+theorem tbl_eccUnknownOk : eccUnknownOk Generated.eccCountry = true := by decide +kernel
+
+/-- PI unknown (row 0), nibble 0 (row 1) and every ECC byte other than the 23 allocated ones
+(A0–A6, D0–D4, E0–E5, F0–F4) give "unknown" -/
+theorem C11_unknown : ∀ row e, (row ≤ 1 ∨ e ∉ Reference.eccCodes) →
+    (Generated.eccCountry.getD row []).getD e 0 = 0 := by
+  intro row e hc
+  have h := tbl_eccUnknownOk
+  simp only [eccUnknownOk, Bool.and_eq_true] at h
+  obtain ⟨h01, hall⟩ := h
+  rcases Nat.lt_or_ge e (Generated.eccCountry.getD row []).length with hlen | hlen
+  · rcases hc with hc | hc
+    · -- rows 0 and 1 are zero
+      have hrow : Generated.eccCountry.getD row [] ∈ Generated.eccCountry.take 2 ∨
+          Generated.eccCountry.getD row [] = [] := by
+        have : Generated.eccCountry.getD row [] = (Generated.eccCountry.take 2).getD row [] := by
+          simp [List.getD_eq_getElem?_getD, List.getElem?_take, show row < 2 by omega]
+        rw [this]; exact tbl_getD_mem_or_default _ _ _
+      rcases hrow with hrow | hrow
+      · rcases tbl_getD_mem_or_default (Generated.eccCountry.getD row []) e 0 with hx | hx
+        · have := List.all_eq_true.mp (List.all_eq_true.mp h01 _ hrow) _ hx
+          simpa using this
+        · exact hx
+      · rw [hrow]; rfl
+    · -- a non-zero cell sits in an allocated ECC column
+      rcases tbl_getD_mem_or_default Generated.eccCountry row [] with hrow | hrow
+      · have hr := List.all_eq_true.mp hall _ hrow
+        have hz := tbl_zipIdx_all (l := Generated.eccCountry.getD row [])
+          (p := fun i x => x == 0 || Reference.eccCodes.contains i) hr e 0 hlen
+        simp only [Bool.or_eq_true, beq_iff_eq] at hz
+        rcases hz with hz | hz
+        · exact hz
+        · exact absurd (List.contains_iff_mem.mp hz) hc
+      · rw [hrow]; rfl
+  · simp [List.getD_eq_getElem?_getD, List.getElem?_eq_none hlen]
+
+/-- the range contract assumed by the logic proofs, for both builds -/
+theorem eccOk (u : Bool) : RDS.EccOk ⟨Generated.cfg u, Generated.countryCount⟩ := by
+  refine ⟨?_, ?_⟩
+  · show 0 < Generated.countryCount
+    decide +kernel
+  · intro n e
+    exact C11_range (n + 1) e
+
+/-- Cells in which the older editions (EN 50067:1998, IEC 62106:2009/2015 Annex D) differ from the
+IEC 62106-4:2018 layout of `Reference.iecColumns`, with the library's value: the library follows
+the 2018 layout — E3/4 unallocated (older: Macedonia), E4/3 Macedonia (older: Kyrgyzstan),
+E5/3 Kyrgyzstan (older: E5 not in use). -/
 theorem C11_legacy_cells :
-    Reference.legacyCells.map (fun c => (c.1, c.2.1, c.2.2, Reference.countryNames.getD (eccCell (c.1 + 1) c.2.1) "")) =
-      [(4, 0xE3, "Macedonia", "Unknown"), (3, 0xE4, "Kyrgyzstan", "Macedonia"), (3, 0xE5, "", "Kyrgyzstan")] := by
+    Reference.legacyCells.map (fun c => (c.1, c.2.1, c.2.2.enumerator, eccCell (c.1 + 1) c.2.1)) =
+      [(4, 0xE3, Reference.Country.macedonia.enumerator, 0),
+       (3, 0xE4, Reference.Country.kyrgyzstan.enumerator, Reference.Country.macedonia.enumerator),
+       (3, 0xE5, 0, Reference.Country.kyrgyzstan.enumerator)] := by
   decide +kernel
 
 /-! ## C18 — PTY lookups -/
 
-/-- all six PTY lookups, all 256 arguments: the reference entry for 0..31, "Unknown" otherwise,
-never NULL -/
+theorem tbl_pty_table (t : Reference.PtyTbl) (rbds : Bool) :
+    genPty t rbds = ptyExpectedList t rbds := by
+  cases t <;> cases rbds <;> exact eq_of_beq (by decide +kernel)
+
+/-- all six PTY lookups, all 256 arguments (index = argument mod 256): the reference entry for
+0..31, "Unknown" otherwise, never NULL -/
 theorem C18_pty (t : Reference.PtyTbl) (rbds : Bool) : ∀ a, a < 256 →
     (genPty t rbds).getD a none =
-      some (if a < 32 then (Reference.pty t rbds).getD a "" else "Unknown") := by
+      some (if a < 32 then (Reference.pty t rbds).getD a "!!" else "Unknown") := by
   intro a ha
-  have h : ptyOkAt t rbds a = true := by
-    cases t <;> cases rbds <;> exact all_range (by decide +kernel) a ha
-  have hlen : (Reference.pty t rbds).length = 32 := reference_shape.2.2.2.2.2 t rbds
-  simp only [ptyOkAt, Reference.ptyExpected, Bool.and_eq_true, beq_iff_eq] at h
-  rw [h.2]
-  by_cases h32 : a < 32
-  · have : a < (Reference.pty t rbds).length := by omega
-    simp [h32, List.getD_eq_getElem?_getD, List.getElem?_eq_getElem this]
-  · simp [h32]
+  rw [tbl_getD_of_eq_map_range (tbl_pty_table t rbds) a ha]
+  rfl
 
 theorem C18_pty_name_rds : ∀ a, a < 256 → Generated.ptyNameRds.getD a none =
-    some (if a < 32 then Reference.ptyRdsName.getD a "" else "Unknown") := C18_pty .name false
+    some (if a < 32 then Reference.ptyRdsName.getD a "!!" else "Unknown") := C18_pty .name false
 theorem C18_pty_short_rds : ∀ a, a < 256 → Generated.ptyShortRds.getD a none =
-    some (if a < 32 then Reference.ptyRdsShort.getD a "" else "Unknown") := C18_pty .short false
+    some (if a < 32 then Reference.ptyRdsShort.getD a "!!" else "Unknown") := C18_pty .short false
 theorem C18_pty_long_rds : ∀ a, a < 256 → Generated.ptyLongRds.getD a none =
-    some (if a < 32 then Reference.ptyRdsLong.getD a "" else "Unknown") := C18_pty .long false
+    some (if a < 32 then Reference.ptyRdsLong.getD a "!!" else "Unknown") := C18_pty .long false
 theorem C18_pty_name_rbds : ∀ a, a < 256 → Generated.ptyNameRbds.getD a none =
-    some (if a < 32 then Reference.ptyRbdsName.getD a "" else "Unknown") := C18_pty .name true
+    some (if a < 32 then Reference.ptyRbdsName.getD a "!!" else "Unknown") := C18_pty .name true
 theorem C18_pty_short_rbds : ∀ a, a < 256 → Generated.ptyShortRbds.getD a none =
-    some (if a < 32 then Reference.ptyRbdsShort.getD a "" else "Unknown") := C18_pty .short true
+    some (if a < 32 then Reference.ptyRbdsShort.getD a "!!" else "Unknown") := C18_pty .short true
 theorem C18_pty_long_rbds : ∀ a, a < 256 → Generated.ptyLongRbds.getD a none =
-    some (if a < 32 then Reference.ptyRbdsLong.getD a "" else "Unknown") := C18_pty .long true
+    some (if a < 32 then Reference.ptyRbdsLong.getD a "!!" else "Unknown") := C18_pty .long true
 
 /-- short names fit 8 characters and long names 16, RDS and RBDS, for every argument (including
 the "Unknown" answers) -/
-theorem C18_pty_width (rbds : Bool) : ∀ a, a < 256 → ∀ s,
+theorem C18_pty_width (rbds : Bool) : ∀ a s,
     ((genPty .short rbds).getD a none = some s → s.length ≤ 8) ∧
     ((genPty .long rbds).getD a none = some s → s.length ≤ 16) := by
-  intro a ha s
-  have h8 : ptyWidthOkAt .short rbds a = true := by
-    cases rbds <;> exact all_range (by decide +kernel) a ha
-  have h16 : ptyWidthOkAt .long rbds a = true := by
-    cases rbds <;> exact all_range (by decide +kernel) a ha
+  intro a s
+  have h8 : (genPty .short rbds).all (widthOk 8) = true := by
+    cases rbds <;> decide +kernel
+  have h16 : (genPty .long rbds).all (widthOk 16) = true := by
+    cases rbds <;> decide +kernel
   constructor
-  · intro hs; simpa [ptyWidthOkAt, Reference.ptyWidth, hs] using h8
-  · intro hs; simpa [ptyWidthOkAt, Reference.ptyWidth, hs] using h16
+  · intro hs
+    rcases tbl_getD_mem_or_default (genPty .short rbds) a none with hm | hm
+    · have := List.all_eq_true.mp h8 _ hm
+      rw [hs] at this; simpa [widthOk] using this
+    · rw [hs] at hm; cases hm
+  · intro hs
+    rcases tbl_getD_mem_or_default (genPty .long rbds) a none with hm | hm
+    · have := List.all_eq_true.mp h16 _ hm
+      rw [hs] at this; simpa [widthOk] using this
+    · rw [hs] at hm; cases hm
 
 /-! ## C18 — country lookups -/
 
-/-- the name lookup: the enumerator's name for 1..countryCount−1, "Unknown" otherwise, never NULL -/
+theorem tbl_country_names : Generated.countryName = namesExpected := eq_of_beq (by decide +kernel)
+
+/-- the name lookup, all 256 arguments: the name of the enumerator for 1..countryCount−1,
+"Unknown" for 0 and for ≥ countryCount; never NULL -/
 theorem C18_country_name : ∀ a, a < 256 →
-    Generated.countryName.getD a none =
-      some (if 0 < a ∧ a < Generated.countryCount then Reference.countryNames.getD a "" else "Unknown") := by
+    Generated.countryName.getD a none = some (Reference.countryRow a).2.1 ∧
+    ((a = 0 ∨ Generated.countryCount ≤ a) → Generated.countryName.getD a none = some "Unknown") := by
   intro a ha
-  have h := all_range (p := nameOkAt) (by decide +kernel) a ha
-  simp only [nameOkAt, nameAt, inRange, beq_iff_eq] at h
+  have h := tbl_getD_of_eq_map_range tbl_country_names a ha none
+  refine ⟨h, ?_⟩
+  intro hout
   rw [h]
-  by_cases hr : 0 < a ∧ a < Generated.countryCount
-  · have hlen : a < Reference.countryNames.length := by
-      have := reference_shape.2.2.1; have := consts_match.2.2.2.2.2.2.2.1; omega
-    simp [hr, List.getD_eq_getElem?_getD, List.getElem?_eq_getElem hlen]
-  · have : (decide (0 < a) && decide (a < Generated.countryCount)) = false := by
-      simpa [Bool.and_eq_false_iff] using (by omega : ¬ 0 < a ∨ ¬ a < Generated.countryCount)
-    simp [hr, this]
+  rcases hout with h0 | hge
+  · subst h0; rfl
+  · have : Reference.countries.length ≤ a := by
+      rw [tbl_countries_length]; exact hge
+    simp [Reference.expectedName, Reference.countryRow, List.getD_eq_getElem?_getD,
+      List.getElem?_eq_none this]
 
-theorem C18_country_name_unknown : ∀ a, a < 256 → (a = 0 ∨ Generated.countryCount ≤ a) →
-    Generated.countryName.getD a none = some "Unknown" := by
-  intro a ha hout
-  rw [C18_country_name a ha]
-  have : ¬ (0 < a ∧ a < Generated.countryCount) := by omega
-  simp [this]
+/-- the arguments at which the pinned library's ISO lookup deviates from ISO 3166-1 -/
+theorem C18_country_iso_deviations : diffIdx Generated.countryIso isoExpected 0 = [164, 166] :=
+  eq_of_beq (by decide +kernel)
 
-/-- the deviating arguments of the pinned library's ISO lookup -/
-theorem C18_country_iso_deviations : deviations256 isoOkAt = [164, 166] := by decide +kernel
-
-/-- the two wrong cells: what the library returns, and the ISO 3166-1 code of the named country -/
+/-- the two wrong cells — El Salvador: "SN" (Senegal's code) instead of "SV"; Turks and Caicos
+Islands: "TB" (unassigned) instead of "TC" — and with these two replaced the table is the
+reference table -/
 theorem C18_country_iso_pinned_defects :
-    (nameAt 164, isoAt 164, Reference.isoOf "El Salvador") = (some "El Salvador", some "SN", "SV") ∧
-    (nameAt 166, isoAt 166, Reference.isoOf "Turks and Caicos islands") =
-      (some "Turks and Caicos islands", some "TB", "TC") := by decide +kernel
+    (nameAt 164, isoAt 164, Reference.expectedIso 164) = (some "El Salvador", some "SN", some "SV") ∧
+    (nameAt 166, isoAt 166, Reference.expectedIso 166) =
+      (some "Turks and Caicos islands", some "TB", some "TC") ∧
+    (Generated.countryIso.set 164 (some "SV")).set 166 (some "TC") = isoExpected := by
+  refine ⟨by decide +kernel, by decide +kernel, eq_of_beq (by decide +kernel)⟩
+
+/-- a row of the reference with a proper enumerator is an entry of `Reference.iso3166` -/
+theorem tbl_row_mem_iso3166 (a : Nat) (h0 : 0 < a) (hc : a < Generated.countryCount) :
+    (Reference.countryRow a).2 ∈ Reference.iso3166 := by
+  have hlen : a < Reference.countries.length := by rw [tbl_countries_length]; exact hc
+  have h1 : (Reference.countries.drop 1)[a - 1]? = some (Reference.countryRow a) := by
+    rw [List.getElem?_drop, show 1 + (a - 1) = a by omega]
+    simp [Reference.countryRow, List.getD_eq_getElem?_getD, List.getElem?_eq_getElem hlen]
+  exact List.mem_map.mpr ⟨_, List.mem_of_getElem? h1, rfl⟩
 
 /-- `C18_country_iso` for every argument except the two deviating ones -/
-theorem C18_country_iso_except : ∀ a, a < 256 → a ∉ [164, 166] →
+theorem C18_country_iso_except : ∀ a, a < 256 → a ≠ 164 → a ≠ 166 →
     if 0 < a ∧ a < Generated.countryCount then
-      ∃ n, Generated.countryName.getD a none = some n ∧
-        Generated.countryIso.getD a none = some (Reference.isoOf n)
+      ∃ n c, Generated.countryName.getD a none = some n ∧ Generated.countryIso.getD a none = some c ∧
+        (n, c) ∈ Reference.iso3166
     else Generated.countryIso.getD a none = some "??" := by
-  intro a ha hn
-  have h := ok_of_not_dev C18_country_iso_deviations a ha hn
-  simp only [isoOkAt, inRange, nameAt, isoAt] at h
-  by_cases hr : 0 < a ∧ a < Generated.countryCount
-  · have hb : (decide (0 < a) && decide (a < Generated.countryCount)) = true := by simp [hr]
-    rw [if_pos hr]
-    rw [if_pos hb] at h
-    cases hn : Generated.countryName.getD a none with
-    | none => simp [hn] at h
-    | some n => exact ⟨n, rfl, by simpa [hn] using h⟩
-  · have hb : ¬ (decide (0 < a) && decide (a < Generated.countryCount)) = true := by
-      simpa using (by omega : 0 < a → Generated.countryCount ≤ a)
-    rw [if_neg hr]
-    rw [if_neg hb] at h
-    simpa using h
+  intro a ha h1 h2
+  have hiso : Generated.countryIso.getD a none = Reference.expectedIso a := by
+    rw [← tbl_getD_set_ne Generated.countryIso (some "SV") none (Ne.symm h1),
+      ← tbl_getD_set_ne _ (some "TC") none (Ne.symm h2)]
+    exact tbl_getD_of_eq_map_range C18_country_iso_pinned_defects.2.2 a ha none
+  split
+  · next hr =>
+    exact ⟨_, _, (C18_country_name a ha).1, hiso, tbl_row_mem_iso3166 a hr.1 hr.2⟩
+  · next hr =>
+    rw [hiso]
+    by_cases h0 : a = 0
+    · subst h0; rfl
+    · have : Reference.countries.length ≤ a := by
+        rw [tbl_countries_length]
+        have : Generated.countryCount = 221 := rfl
+        omega
+      simp [Reference.expectedIso, Reference.countryRow, List.getD_eq_getElem?_getD,
+        List.getElem?_eq_none this]
 
 /-- every in-range ISO result is two capital letters or the "--" placeholder -/
 theorem C18_iso_two_letters : ∀ a, 0 < a → a < Generated.countryCount →
-    ∃ s, Generated.countryIso.getD a none = some s ∧ s.length = 2 ∧ Reference.isoShape s = true := by
+    ∃ s, Generated.countryIso.getD a none = some s ∧ Reference.isoShape s = true := by
   intro a h0 hc
-  have ha : a < 256 := by have : Generated.countryCount = 221 := rfl; omega
-  have h := all_range (p := isoShapeOkAt) (by decide +kernel) a ha
-  have hb : inRange a = true := by simp [inRange, h0, hc]
-  simp only [isoShapeOkAt, hb, Bool.not_true, Bool.false_or, isoAt] at h
+  have hcc : Generated.countryCount = 221 := rfl
+  have h := tbl_zipIdx_all (l := Generated.countryIso)
+    (p := fun i o => i == 0 || decide (Generated.countryCount ≤ i) || shapeOk o)
+    (by decide +kernel) a none (by rw [tbl_generated_lengths.2.2.2.1]; omega)
+  have h1 : (a == 0) = false := by simp; omega
+  have h2 : ¬ Generated.countryCount ≤ a := by omega
+  simp only [h1, h2, decide_false, Bool.false_or] at h
   cases hs : Generated.countryIso.getD a none with
-  | none => simp [hs] at h
-  | some s => exact ⟨s, rfl, by simpa [hs] using h⟩
+  | none => rw [hs] at h; cases h
+  | some s => rw [hs] at h; exact ⟨s, rfl, h⟩
 
-/-- the only pair of distinct countries sharing a code in the pinned library: Senegal (125) and
+/-- the only pair of different countries sharing a code in the pinned library: Senegal (125) and
 El Salvador (164), both "SN" -/
-theorem C18_iso_distinct_deviations : isoDistinctDeviations = [(125, 164)] := by decide +kernel
+theorem C18_iso_distinct_deviations : isoClashes Generated.countryIso = [(125, 164)] :=
+  eq_of_beq (by decide +kernel)
+
+/-- the reference ISO codes themselves are shared only inside an alias class (the eight
+"Australia …" entries) -/
+theorem tbl_reference_iso_distinct : isoClashes isoExpected = [] := eq_of_beq (by decide +kernel)
 
 /-! ## axioms -/
 
-#print axioms reference_shape
-#print axioms reference_names
+#print axioms tbl_reference_shape
 #print axioms C02_charset_deviations
 #print axioms C02_charset_pinned_defects
 #print axioms C02_charset_except
@@ -364,10 +431,10 @@ theorem C18_iso_distinct_deviations : isoDistinctDeviations = [(125, 164)] := by
 #print axioms C02_eol
 #print axioms C02_no_nul
 #print axioms C02_lane_independent
-#print axioms C02_controls_not_stored
 #print axioms C20_narrow_table
 #print axioms C20_narrow_is_conv
 #print axioms C20_consts
+#print axioms C20_g0_ascii
 #print axioms C20_g0_injective_ascii
 #print axioms caps_match
 #print axioms consts_match
@@ -386,11 +453,11 @@ theorem C18_iso_distinct_deviations : isoDistinctDeviations = [(125, 164)] := by
 #print axioms C18_pty_long_rbds
 #print axioms C18_pty_width
 #print axioms C18_country_name
-#print axioms C18_country_name_unknown
 #print axioms C18_country_iso_deviations
 #print axioms C18_country_iso_pinned_defects
 #print axioms C18_country_iso_except
 #print axioms C18_iso_two_letters
 #print axioms C18_iso_distinct_deviations
+#print axioms tbl_reference_iso_distinct
 
-end RDS.TableProofs
+end RDS
